@@ -42,6 +42,12 @@ def main():
         return 2
     res_path = os.path.join(seeded, 'RESULTS.json')
     results = json.load(open(res_path)) if os.path.exists(res_path) else {}
+    # the evidence files committed under /verif/evidence describe the unchanged tree: keep them aside
+    # while checks run against modified trees and put them back afterwards
+    import shutil
+    import tempfile
+    keep = tempfile.mkdtemp(prefix='scn_evidence_keep_')
+    shutil.copytree(os.path.join(VERIF, 'evidence'), os.path.join(keep, 'evidence'))
     try:
         for i in ids:
             d = os.path.join(seeded, i)
@@ -92,6 +98,9 @@ def main():
                 f.write('\n')
     finally:
         sh(['git', '-C', '/repo', 'worktree', 'remove', '--force', WT])
+        shutil.rmtree(os.path.join(VERIF, 'evidence'), ignore_errors=True)
+        shutil.copytree(os.path.join(keep, 'evidence'), os.path.join(VERIF, 'evidence'))
+        shutil.rmtree(keep, ignore_errors=True)
         # restore generated tables from the real repo
         sh(['/venv/bin/python', '-c',
             'import sys; sys.path.insert(0, %r); sys.path.insert(0, "/repo/src")\n'
